@@ -68,7 +68,11 @@ DefEdits == {"add_comments", "comments_everywhere", "change_comments", "imported
              "rename_field", "enum_add_value", "enum_remove_value", "enum_change_value", "enum_base_type", "flags_add_value", "flags_change_value",
              "generic_add_parameter", "generic_remove_parameter", "rename_with_alias", "add_alias", "remove_alias"}
 
-Positions == {"step", "stream_item", "field", "alias", "vector_item", "optional", "vector_of_optional", "field_of_nested_record"}
+Positions == {"step", "stream_item", "field", "alias", "vector_item", "optional", "vector_of_optional", "field_of_nested_record",
+              \* reached only through a type argument of a generic (see Evolution.tla): the closure must follow type arguments of every
+              \* instantiation, not only of the first one it meets
+              "generic_arg", "second_instantiation", "third_instantiation", "nested_generic_arg", "generic_alias_arg",
+              "second_instantiation_alias", "second_instantiation_in_record", "union_case_record", "map_value_record"}
 
 ASSUME \A i \in 1..Len(TypeEdits) : PrintT(<<"CASE", ToJson([kind |-> "type", edit |-> TypeEdits[i].e, a |-> TypeEdits[i].a, b |-> TypeEdits[i].b,
                                                               class |-> TypeClass(TypeEdits[i]), positions |-> Positions])>>)
